@@ -290,6 +290,46 @@ func c18Gen(g *Gen) {
 		}
 		g.Case(lines...)
 	}
+	// refusals on every body-reading route: caps just below/at the wire and decoded sizes, unknown codings
+	nr := g.N(30, 1200)
+	for i := 0; i < nr; i++ {
+		prefix := Pick(r, []string{"", "", "/vgi"})
+		spec := c18GenSpec(r, false)
+		if spec.codec == "junk" {
+			spec.codec = "gzip"
+		}
+		if spec.n > 60000 {
+			spec.n = r.Range(100, 60000)
+		}
+		spec.corrupt = "none"
+		encHdr := spec.codec
+		if spec.codec == "raw" {
+			encHdr = Pick(r, []string{"", "identity"})
+		}
+		if r.Chance(25) {
+			encHdr = Pick(r, []string{"br", "deflate", "zstd, gzip", "x-gzip", "compress"})
+		}
+		raw, dec, _ := c18Measure(spec, true, encHdr)
+		var a, b, d int64
+		switch r.Intn(5) {
+		case 0:
+			a, b, d = 0, int64(raw)-1, 0
+		case 1:
+			a, b, d = Pick(r, []int64{0, 64 << 20}), int64(dec)-1, Pick(r, []int64{0, -1})
+		case 2:
+			a, b, d = 0, int64(dec), 0
+		case 3:
+			a, b, d = 64<<20, 0, int64(dec)-1
+		default:
+			a, b, d = int64(raw), int64(raw)+1, 0
+		}
+		lines := []string{fmt.Sprintf("cfg %d %d %d %s", a, b, d, XS(prefix))}
+		mode := Pick(r, []string{"cl", "chunked", "chunked"})
+		for _, rt := range []string{"unary", "describe", "init", "exchange", "upload"} {
+			lines = append(lines, fmt.Sprintf("route %s %s %s %s", rt, mode, XS(encHdr), spec))
+		}
+		g.Case(lines...)
+	}
 	// coding stacks
 	ns := g.N(80, 4000)
 	for i := 0; i < ns; i++ {
